@@ -141,6 +141,11 @@ LINKS["repl_pat"] = dict(resname=["A", "B", "C", "D"], atoms={"+BB": {"replace":
                          inter={"constraints": [I(["BB", "+BB"], ["2", "0.46"])]},
                          patterns=[[("BB", {"resname": "A"}), ("+BB", {"resname": "B"})],
                                    [("BB", {"resname": "C"}), ("+BB", {"resname": "A"})]])
+# residue name left open on one side: the unnamed residue matches a residue of any name (also one no atom of the link names)
+LINKS["open2"] = dict(resname=None, atoms={"BB": {"resname": "A"}, "+BB": {}},
+                      inter={"bonds": [I(["BB", "+BB"], ["1", "0.39", "3900"])]})
+LINKS["open3"] = dict(resname=None, atoms={"-BB": {}, "BB": {"resname": "B"}, "+BB": {}},
+                      inter={"angles": [I(["-BB", "BB", "+BB"], ["2", "115", "15"])]})
 for _l in LINKS.values():
     _l.pop("extra_edges_for_resgraph", None)
 
